@@ -518,6 +518,10 @@ package sio
 //@   ghost connrem int = 0
 //@   ghost disc int = 0
 //@   ghost discing int = 0
+//@   ghost joinoff bool = false
+//@   onstore join
+//@     requires recv == s && wheld(s.joinMu) [C06.sio.join.disabled.locked]
+//@     update joinoff = true
 //@   callsite (*serverSocket).Connected
 //@     updateafter wasconn = result
 //@   callsite Contains
@@ -528,6 +532,7 @@ package sio
 //@     update persisted = persisted + 1
 //@   callsite (*serverSocket).leaveAll
 //@     requires discing == 1 [C06.sio.disconnecting.first]
+//@     requires joinoff [C06.sio.join.disabled.before.leave]
 //@     update left = left + 1
 //@   callsite (*Namespace).remove
 //@     requires arg0 == s [C06.sio.nsp.remove]
@@ -890,3 +895,127 @@ package sio
 //@   loop 0 invariant packets[0] != nil && !packets[0].IsBinary && packets[0].Type == 4 && packets[0].Data == old(buffers[0])
 //@   loop 0 invariant forall k int :: 1 <= k && k <= rangeindex + 1 ==> packets[k] != nil && packets[k].IsBinary && packets[k].Type == 4 && packets[k].Data == old(buffers[k])
 //@   ensures queued <= 1 [C05.send.once]
+
+// ---------------------------------------------------------------------------------------------
+// C06 (Socket.IO side). When the connection ends, every socket it still holds is closed with the connection's
+// reason; the routing tables are emptied first.
+//@ func (*serverConn).onClose$1
+//@   opt safety off
+//@   ghost got int = 0
+//@   ghost closed int = 0
+//@   callsite (*serverSocketStore).getAndRemoveAll skip
+//@     requires recv == c.sockets [C06.conn.drains.own]
+//@     updateafter got = len(result)
+//@   callsite (*serverSocket).onClose skip
+//@     requires arg0 == reason [C06.conn.reason]
+//@     update closed = closed + 1
+//@   callsite (*serverConn).closePacketQueue skip
+//@   callsite Reset skip
+//@   loop 0 invariant closed == rangeindex + 1 && rangelen == got
+//@   ensures closed == got [C06.conn.closeall]
+
+// ... and a connection closed by the server reports ReasonForcedServerClose, after closing the Engine.IO session.
+//@ func (*serverConn).close
+//@   opt safety off
+//@   ghost eioclosed int = 0
+//@   ghost reported int = 0
+//@   callsite ServerSocket.Close
+//@     update eioclosed = eioclosed + 1
+//@   callsite (*serverConn).closePacketQueue skip
+//@   callsite (*serverConn).onClose skip
+//@     requires arg0 == ReasonForcedServerClose && eioclosed == 1 [C06.conn.forced.reason]
+//@     update reported = reported + 1
+//@   ensures reported == 1 [C06.conn.forced.reported]
+
+//@ func (*serverSocketStore).getAndRemoveAll
+//@   opt safety off
+//@   modifies s.socketsByID, s.socketsByNsp, maxmake()
+//@   ensures forall k SocketID :: !(k in s.socketsByID) [C06.store.srv.drained.id]
+//@   ensures forall k string :: !(k in s.socketsByNsp) [C06.store.srv.drained.nsp]
+//@   ensures len(result) == old(len(s.socketsByID)) [C06.store.srv.drained.all]
+
+// The namespace forgets exactly the closed socket.
+//@ func (*nspSocketStore).remove
+//@   requires s.sockets != nil
+//@   modifies mapof(s.sockets)
+//@   ensures !(sid in s.sockets) [C06.store.nsp.remove]
+//@   ensures forall k SocketID :: k != sid ==> (k in s.sockets) == old(k in s.sockets) && s.sockets[k] == old(s.sockets[k]) [C06.store.nsp.remove.frame]
+
+//@ func (*Namespace).remove
+//@   opt safety off
+//@   requires socket != nil
+//@   ghost present bool = false
+//@   ghost rem int = 0
+//@   callsite (*nspSocketStore).get skip
+//@     requires recv == n.sockets && arg0 == socket.id
+//@     updateafter present = result1
+//@   callsite (*nspSocketStore).remove skip
+//@     requires recv == n.sockets && arg0 == socket.id [C06.nsp.remove.own]
+//@     update rem = rem + 1
+//@   ensures present ==> rem == 1 [C06.nsp.remove.listed]
+
+// The socket's close body runs at most once per socket (sync.Once) ...
+//@ func (*serverSocket).onClose
+//@   opt safety off
+//@   ghost once int = 0
+//@   callsite Do
+//@     requires isfield(recv, s, closeOnce) [C06.sio.once.guard]
+//@     update once = once + 1
+//@   ensures once == 1 [C06.sio.once]
+
+// ... and both handler kinds are handed the reason of this close.
+//@ func (*serverSocket).onClose$1$1$1
+//@   opt safety off
+//@   ghost ran int = 0
+//@   callsite *handler skip
+//@     requires arg0 == reason [C06.sio.disconnecting.reason]
+//@     update ran = ran + 1
+//@   ensures ran == 1 [C06.sio.disconnecting.called]
+
+//@ func (*serverSocket).onClose$1$3
+//@   opt safety off
+//@   ghost ran int = 0
+//@   callsite *handler skip
+//@     requires arg0 == reason [C06.sio.disconnect.reason]
+//@     update ran = ran + 1
+//@   ensures ran == 1 [C06.sio.disconnect.called]
+
+// Server shutdown: every socket of EVERY namespace is told ReasonServerShuttingDown before the Engine.IO server is
+// closed (afterwards the Engine.IO shutdown could only report a forced close).
+//@ func (*Server).Close
+//@   opt safety off
+//@   ghost nn int = 0 - 1
+//@   ghost nspseen int = 0
+//@   ghost listed int = 0
+//@   ghost lb int = 0
+//@   ghost closed int = 0
+//@   ghost eioclosed int = 0
+//@   callsite (*nspStore).getAll skip
+//@     requires recv == s.namespaces && nn == 0 - 1 [C06.srv.close.all.namespaces]
+//@     updateafter nn = len(result)
+//@   callsite (*Namespace).Sockets skip
+//@     requires eioclosed == 0
+//@     update nspseen = nspseen + 1
+//@     update lb = listed
+//@     updateafter listed = listed + len(result)
+//@   callsite (*serverSocket).onClose skip
+//@     requires arg0 == ReasonServerShuttingDown && eioclosed == 0 [C06.srv.close.reason]
+//@     update closed = closed + 1
+//@   callsite Close
+//@     requires nspseen == nn && closed == listed [C06.srv.close.every.socket.first]
+//@     update eioclosed = eioclosed + 1
+//@   loop 0 invariant nspseen == rangeindex + 1 && closed == listed && rangelen == nn && eioclosed == 0 [C06.srv.close.inv.namespaces]
+//@   loop 1 invariant closed == lb + rangeindex + 1 && listed == lb + rangelen && eioclosed == 0 [C06.srv.close.inv.sockets]
+//@   ensures eioclosed == 1 [C06.srv.close.eio]
+
+// Becoming connected is one critical section of connectedMu: own room, CONNECT reply and the connected flag. A close
+// that arrives in between waits (Connected() takes the read lock) instead of finding a half-connected socket,
+// spending the socket's close-once guard and leaving a connected socket that can never be closed.
+//@ func (*serverSocket).onConnect
+//@   opt safety off
+//@   callsite (*serverSocket).Join skip
+//@     requires wheld(s.connectedMu) [C06.sio.connect.atomic.join]
+//@     requires len(arg0) == 1 && arg0[0] == s.id [C12.onconnect.ownroom]
+//@   callsite (*serverSocket).sendControlPacket skip
+//@     requires wheld(s.connectedMu) && arg0 == parser.PacketTypeConnect [C06.sio.connect.atomic.reply]
+//@   ensures s.connected [C06.sio.connect.flag]
